@@ -27,6 +27,40 @@ func (t TrimEnumValues) Process(schemas []*ast.Schema) ([]*ast.Schema, error) {
 
 			return def, nil
 		},
+		// so are the items of the default of a list of members, the values of the default of a map of members
+		OnArray: func(visitor *Visitor, schema *ast.Schema, def ast.Type) (ast.Type, error) {
+			if items, ok := def.Default.([]any); ok {
+				trimmed := make([]any, len(items))
+				for i, item := range items {
+					trimmed[i] = t.trimMember(allSchemas, def.AsArray().ValueType, item)
+				}
+				def.Default = trimmed
+			}
+
+			var err error
+			def.Array.ValueType, err = visitor.VisitType(schema, def.AsArray().ValueType)
+
+			return def, err
+		},
+		OnMap: func(visitor *Visitor, schema *ast.Schema, def ast.Type) (ast.Type, error) {
+			if entries, ok := def.Default.(map[string]any); ok {
+				trimmed := make(map[string]any, len(entries))
+				for key, value := range entries {
+					trimmed[key] = t.trimMember(allSchemas, def.AsMap().ValueType, value)
+				}
+				def.Default = trimmed
+			}
+
+			var err error
+			def.Map.IndexType, err = visitor.VisitType(schema, def.AsMap().IndexType)
+			if err != nil {
+				return ast.Type{}, err
+			}
+
+			def.Map.ValueType, err = visitor.VisitType(schema, def.AsMap().ValueType)
+
+			return def, err
+		},
 		OnConstantRef: func(_ *Visitor, _ *ast.Schema, def ast.Type) (ast.Type, error) {
 			constantRef := def.AsConstantRef()
 			enumRef := ast.RefType{ReferredPkg: constantRef.ReferredPkg, ReferredType: constantRef.ReferredType}
@@ -40,6 +74,29 @@ func (t TrimEnumValues) Process(schemas []*ast.Schema) ([]*ast.Schema, error) {
 	}
 
 	return visitor.VisitSchemas(schemas)
+}
+
+// trimMember trims a value that designates a member of the enum its type is,
+// or refers to.
+func (t TrimEnumValues) trimMember(schemas ast.Schemas, memberType ast.Type, value any) any {
+	text, ok := value.(string)
+	if !ok {
+		return value
+	}
+
+	if memberType.IsRef() && t.designatesMember(schemas, memberType.AsRef(), text) {
+		return strings.TrimSpace(text)
+	}
+
+	if memberType.IsEnum() {
+		for _, member := range memberType.AsEnum().Values {
+			if memberText, ok := member.Value.(string); ok && strings.TrimSpace(memberText) == strings.TrimSpace(text) {
+				return strings.TrimSpace(text)
+			}
+		}
+	}
+
+	return value
 }
 
 // designatesMember tells whether a value is, spaces aside, a member of the enum
